@@ -2,6 +2,7 @@ import CoercionModel.Model.Fix
 import CoercionModel.Model.Attempts
 import CoercionModel.Model.Skeletons
 import CoercionModel.Generated.F10
+import CoercionModel.Proofs.FixFull
 set_option linter.unusedSimpArgs false
 /-
   C09 — After a crash, durably finished work is never executed again.
@@ -82,6 +83,26 @@ example : (fixAction { status := .running, attempts := [att .none 0] }).status =
 example : willInvoke { status := .running, attempts := [att .none 0] } = true := by decide
 example : (fixSeq { status := .running, actions := [{ status := .completed }, { status := .running, attempts := [att .none 3] }] }).status = .completed := by
   decide
+
+/-! ### the repair functions over every input state (Model/FixFull; tied to the code function by function) -/
+
+/-- without Stopped actions (nothing in the engine produces Stopped) the code's `fixSeq`, modelled over
+    every state by `fixSeqFull`, is `Model/Fix.fixSeq` up to the End time it stamps -/
+theorem fixSeqFull_eq_fixSeq (now : Nat) (q : Sequence) (h : q.actions.any (·.status == .stopped) = false) :
+    { Fix.fixSeqFull now q with tEnd := (fixSeq q).tEnd } = fixSeq q :=
+  Fix.fixSeqFull_eq_fixSeq now q h
+
+/-- the repair never turns an action Stopped -/
+theorem fixAction_not_stopped (a : Action) (h : a.status ≠ .stopped) : (fixAction a).status ≠ .stopped :=
+  Fix.fixAction_not_stopped a h
+
+/-- a Running check group is reset together with all its actions (they are run again from scratch);
+    any other group is left alone -/
+theorem fixChecks_resets (c : Checks) (h : c.status = .running) :
+    (Fix.fixChecks c).status = .notStarted ∧ ∀ a ∈ (Fix.fixChecks c).actions, a.status = .notStarted ∧ a.attempts = [] :=
+  Fix.fixChecks_resets c h
+theorem fixChecks_only_running (c : Checks) (h : c.status ≠ .running) : Fix.fixChecks c = c :=
+  Fix.fixChecks_only_running c h
 
 /-- the Go functions this property's model mirrors still have the shape the model was written against
     (control-flow skeletons regenerated from /repo on every run, Model/Skeletons): fixAction, resetAction, fixSeq, fixChecks -/
